@@ -60,8 +60,42 @@ def parse_value(s):
     v = value()
     if pos[0] != len(toks): raise ValueError('trailing tokens: %r' % toks[pos[0]:pos[0]+5])
     return v
+RESULT_KEYS = ("out", "obs", "res", "expected", "exp", "ans", "ret", "decl", "val", "value", "nom", "k")
+
+
+def mutate(v):
+    """self-test only: the smallest change of a value (engine.selftest)"""
+    if isinstance(v, bool): return not v
+    if isinstance(v, int): return v + 1
+    if isinstance(v, str): return v + "~"
+    if isinstance(v, dict):
+        for k in RESULT_KEYS:
+            if k in v:
+                v[k] = mutate(v[k]); return v
+        for k in sorted(v, key=str):
+            v[k] = mutate(v[k]); return v
+        v["~"] = 1; return v
+    if isinstance(v, list):
+        if v: v[-1] = mutate(v[-1])
+        else: v.append(1)
+        return v
+    return 1
+
+
 def parse_states(text):
-    """Yield dict var->value for each 'State n:' block of a -dump file or each STATE_n of a simulation file."""
+    """Yield dict var->value for each 'State n:' block of a -dump file or each STATE_n of a simulation file.
+    Self-test (VERIF_SELFTEST=expect): the expectation of every 97th state is falsified; the check must then report violations."""
+    import os
+    if os.environ.get("VERIF_SELFTEST") == "expect":
+        for i, st in enumerate(_parse_states(text)):
+            if i % 97 == 50:
+                mutate(st)
+            yield st
+        return
+    yield from _parse_states(text)
+
+
+def _parse_states(text):
     blocks = re.split(r'\n(?=State \d+:|STATE_\d+ ==)', text)
     for b in blocks:
         if not re.match(r'(State \d+:|STATE_\d+ ==)', b.strip()): continue
